@@ -266,3 +266,35 @@ func mustUDPAddr(s string) *net.UDPAddr {
 func ustr(a *net.UDPAddr) string { return akey(a.IP, a.Port) }
 
 func secDur(s int) time.Duration { return time.Duration(s) * time.Second }
+
+// stripAfterMI returns msg as an agent has to read it: without the attributes that follow
+// MESSAGE-INTEGRITY (a FINGERPRINT directly behind it excepted). Raw stays what was received.
+func stripAfterMI(msg *stun.Message) *stun.Message {
+	cut := -1
+	for i, a := range msg.Attributes {
+		if a.Type == stun.AttrMessageIntegrity {
+			cut = i + 1
+			break
+		}
+	}
+	if cut < 0 || cut == len(msg.Attributes) {
+		return msg
+	}
+	if cut+1 == len(msg.Attributes) && msg.Attributes[cut].Type == stun.AttrFingerprint {
+		return msg
+	}
+	out := *msg
+	out.Attributes = append(stun.Attributes(nil), msg.Attributes[:cut]...)
+	return &out
+}
+
+// hasXORAddr: msg carries an attribute t whose (XOR-decoded) address has this IP.
+func hasXORAddr(msg *stun.Message, t stun.AttrType, ip net.IP) bool {
+	as, _ := allXORAddrs(msg, t)
+	for _, a := range as {
+		if a.IP.Equal(ip) {
+			return true
+		}
+	}
+	return false
+}
